@@ -28,4 +28,9 @@ theorem validation_chain :
     Gen.HEADER_VALIDATE = ["check_magic_byte()?", "check_header_checksum()?"] ∧
     Gen.DATA_AUDIT = ["CRC32C.checksum(data)", "==", "data_checksum", "RecordDataChecksum"] := by decide
 
+/-- `Meta::serialized_size` and `Header::serialized_size` (the `meta_size` of a record header and the header length) are
+    bincode's own `serialized_size`, not a hand-written formula: the model's lengths are the lengths of the
+    serialized images (`serMeta`, `serHeader`) -/
+theorem sizes_from_bincode : Gen.RECORD_SERIALIZED_SIZES = ["bincode", "bincode"] := by decide
+
 end Pearl.Tie.C05
